@@ -3,6 +3,7 @@ from __future__ import annotations
 
 import itertools
 
+from .. import core
 from ..core import Prop, Violation
 from ._coord import CoordMixin, Impl, gen_multi_kill, gen_cycled_ring, gen_ring_again
 
@@ -32,6 +33,7 @@ class C15(CoordMixin, Prop):
     id = "C15"
     title = "Deadlock detection agrees with the real wait-for relation"
     fixed_prefix = 1
+    extractors = ["advance-probe"]
     quick_budget = 2500
     thorough_budget = 40000
     all_branches = ["dl:none", "dl:cycle", "acq:acquired", "acq:blocked", "acq:reentrant", "acq:preempted", "rel:0",
@@ -51,6 +53,11 @@ class C15(CoordMixin, Prop):
     def setup(self, ctx):
         CoordMixin.setup(self, ctx)
         self._attr = {}
+
+    def extract(self, ctx):
+        # the real CellCycleController.advance evaluated on its complete finite domain -> Operon/Gen/CoordAdvanceProbe.lean
+        from ..extract import coord_probe
+        return coord_probe.run(self.m_controller, self.m_types, core.LEAN, core.write_if_changed)
 
     # --- implementation: C14's runner plus check_deadlock() recorded after every line ------------------------
     def run_impl(self, case):
